@@ -174,22 +174,40 @@ func stripEvent(cn *oidCanon, d bson.D) bson.D {
 
 func canonEvents(cn *oidCanon, evs []bsonkit.Doc) string {
 	var out []string
-	var run []string
-	flush := func() {
-		sort.Strings(run)
-		out = append(out, run...)
-		run = nil
+	var drops []string
+	var dels []bsonkit.Doc
+	flushDrops := func() {
+		sort.Strings(drops)
+		out = append(out, drops...)
+		drops = nil
+	}
+	// the delete events of one Expire pass come namespace by namespace in map
+	// order: runs of consecutive delete events are grouped by namespace (stable)
+	flushDels := func() {
+		sort.SliceStable(dels, func(i, j int) bool {
+			return enc(bsonkit.Get(dels[i], "ns")) < enc(bsonkit.Get(dels[j], "ns"))
+		})
+		for _, d := range dels {
+			out = append(out, enc(stripEvent(cn, *d)))
+		}
+		dels = nil
 	}
 	for _, e := range evs {
-		s := enc(stripEvent(cn, *e))
-		if bsonkit.Get(e, "operationType") == "drop" {
-			run = append(run, s)
-		} else {
-			flush()
-			out = append(out, s)
+		switch bsonkit.Get(e, "operationType") {
+		case "drop":
+			flushDels()
+			drops = append(drops, enc(stripEvent(cn, *e)))
+		case "delete":
+			flushDrops()
+			dels = append(dels, e)
+		default:
+			flushDrops()
+			flushDels()
+			out = append(out, enc(stripEvent(cn, *e)))
 		}
 	}
-	flush()
+	flushDrops()
+	flushDels()
 	return "(" + strings.Join(out, " ") + ")"
 }
 
@@ -698,12 +716,7 @@ func runAPI(c *sx) string {
 			}
 		}
 		trimmed := len(oplogBefore) + len(evs) - len(oplogAfter)
-		if call.list[0].atom == "expire" {
-			// one Expire pass visits the namespaces in map order: group by namespace
-			sort.SliceStable(evs, func(i, j int) bool {
-				return enc(bsonkit.Get(evs[i], "ns")) < enc(bsonkit.Get(evs[j], "ns"))
-			})
-		}
+
 		ns := "-"
 		if h != nil {
 			ns = dumpNS(a.cn, cat, *h)
